@@ -391,6 +391,97 @@ func TestC07Lengths(t *testing.T) {
 	h.RunList(t, cases, c07CheckLen)
 }
 
+// ------------------------------------------- the exported Basepoint, written to
+
+// x25519.Basepoint is an exported, writable slice.  A caller (or a stray
+// write through an alias) that changes its bytes in place and then passes it
+// to X25519 hands the function OTHER 32 bytes at the same address.  "The RFC
+// 7748 function on every input" leaves two sound outcomes: the library refuses
+// (it has a guard that panics: "global Basepoint value was modified") or it
+// computes the function of the bytes it was actually given (error exactly when
+// the result is all zero).  What can never be right is the silent result for
+// u = 9, or an accepted low-order value.  The slice is restored before the
+// case ends (the state is global).
+type c07ModCase struct {
+	K     h.Hex
+	U     h.Hex  // what is written over Basepoint
+	Index int    // -1: all 32 bytes of U are written; otherwise only byte Index takes U[Index]
+	Via   int    // 0: X25519(k, Basepoint); 1: ScalarMult with a copy (control: must be the RFC value of the bytes)
+	UCls  string `json:",omitempty"`
+}
+
+func c07GenMod(t *rapid.T) c07ModCase {
+	k, _ := h.C07Scalar(t, "k")
+	u, cls := h.C07U(t, "u")
+	return c07ModCase{K: k, U: u, Index: rapid.IntRange(-1, 31).Draw(t, "index"), Via: rapid.IntRange(0, 3).Draw(t, "via") / 3, UCls: cls}
+}
+
+func c07CheckMod(c c07ModCase) h.Result {
+	r := h.NewR().Class("basepoint-written:" + c.UCls)
+	if len(c.K) != 32 || len(c.U) != 32 || c.Index < -1 || c.Index > 31 {
+		return r.Result()
+	}
+	nine := c07Nine()
+	if !bytes.Equal(x25519.Basepoint, nine) {
+		return r.Fail("x25519.Basepoint:modified", "before the case: %x", x25519.Basepoint).Result()
+	}
+	given := append([]byte(nil), nine...)
+	if c.Index < 0 {
+		copy(given, c.U)
+	} else {
+		given[c.Index] = c.U[c.Index]
+	}
+	changed := !bytes.Equal(given, nine)
+	r.NT(changed)
+	want, ok, detail := c07Oracle(c.K, given)
+	if !ok {
+		return r.Fail("harness:oracle-disagreement", "k=%x u=%x: %s", []byte(c.K), given, detail).Result()
+	}
+	wantErr := bytes.Equal(want, c07Zero)
+	defer copy(x25519.Basepoint, nine)
+	copy(x25519.Basepoint, given)
+	r.Eval(1)
+	var out []byte
+	var err error
+	if c.Via == 1 {
+		var dst, ka, ua [32]byte
+		copy(ka[:], c.K)
+		copy(ua[:], x25519.Basepoint)
+		if pn, v := h.Catch(func() { x25519.ScalarMult(&dst, &ka, &ua) }); pn { //nolint:staticcheck
+			return r.Fail("x25519.ScalarMult:panic", "%v", v).Result()
+		}
+		if !bytes.Equal(dst[:], want) {
+			r.Fail("x25519.ScalarMult:wrong-output", "k=%x u=%x got=%x want=%x", []byte(c.K), given, dst, want)
+		}
+		return r.Result()
+	}
+	pn, v := h.Catch(func() { out, err = x25519.X25519(c.K, x25519.Basepoint) })
+	if !bytes.Equal(x25519.Basepoint, given) {
+		r.Fail("x25519.X25519:wrote-to-its-point-argument", "now %x", x25519.Basepoint)
+	}
+	if pn {
+		if !changed {
+			r.Fail("x25519.X25519:panic", "Basepoint intact, yet: %v", v)
+		}
+		return r.Class("refused-by-panic").Result()
+	}
+	switch {
+	case wantErr && err == nil:
+		r.Fail("x25519.X25519(modified-Basepoint):accepted-low-order-point", "k=%x u=%x out=%x", []byte(c.K), given, out)
+	case !wantErr && err != nil:
+		// an error is a refusal too (nothing is handed out)
+		r.Class("refused-by-error")
+	case !wantErr && !bytes.Equal(out, want):
+		r.Fail("x25519.X25519(modified-Basepoint):not-the-function-of-the-bytes-given", "k=%x u=%x got=%x want=%x (for u=9: %x)",
+			[]byte(c.K), given, out, want, ref.X25519(c.K, nine))
+	default:
+		r.Class("computed-on-the-bytes-given")
+	}
+	return r.Result()
+}
+
+func TestC07BasepointWritten(t *testing.T) { h.Run(t, c07GenMod, c07CheckMod) }
+
 // --------------------------------------------------------- Diffie-Hellman
 
 type c07DHCase struct {
